@@ -50,6 +50,10 @@ static jsmntok_t *verif_tok_value(jsmntok_t *t, size_t k, int tokenDepth, int da
 #define T_VALUE(i) (*verif_tok_value(t, (size_t)(i), tokenDepth, dataDepth))
 #define DATA_PUSH() do { __CPROVER_assert(dataDepth < VERIF_STACK, "BOUND data stack"); dataDepth++; } while (0)
 #define DATA_POP() do { __CPROVER_assert(dataDepth > 0, "O_walk_stack: dataStack.pop_back() on an empty list (undefined behaviour)"); dataDepth--; } while (0)
+/* string payload: the text of a token that becomes an object key or the atom of a value must have gone through jsonUnescape
+   (toJSON escapes both; unescaping a primitive is the identity, so the code may do it unconditionally) */
+#define KEY_USE(unesc) __CPROVER_assert(unesc, "O_walk_unescape: an object key is the unescaped token text (toJSON escapes keys)")
+#define ATOM_USE(unesc) __CPROVER_assert(unesc, "O_walk_unescape: the atom of a value is the unescaped token text (toJSON escapes strings)")
 #define DATA_BACK() __CPROVER_assert(dataDepth > 0, "O_walk_stack: dataStack.back() on an empty list (undefined behaviour)")
 #define TOK_PUSH(x) do { __CPROVER_assert(tokenDepth < VERIF_STACK, "BOUND token stack"); if (tokenDepth < VERIF_STACK) tokenStack[tokenDepth] = (x); tokenDepth++; } while (0)
 #define TOK_POP() do { __CPROVER_assert(tokenDepth > 0, "O_walk_stack: tokenStack.pop_back() on an empty list (undefined behaviour)"); tokenDepth--; } while (0)
